@@ -173,6 +173,8 @@ class FieldFlow(object):
                         deps.add(('field', r))
                 elif m is None or m.kind == 'attr':
                     deps.add(('field', n.attr))
+                elif m.kind == 'method' and not any(isinstance(c, ast.Call) and c.func is n for c in ast.walk(expr)):
+                    deps.add(('selfmethod', n.attr))
         if not deps:
             deps.add(('const',))
         # transparent one-argument wrappers keep element structure
@@ -489,18 +491,47 @@ class FieldFlow(object):
                 info.unmodelled = 'no return'
             return info
         pm = _parents(node)
+        # local names -> fields of the object they were computed from (flow-insensitive)
+        self._senv = getattr(self, '_senv', {})
+        env = {}
+        for _ in range(2):
+            for st in walk_no_nested(node):
+                tgts = []
+                val = None
+                if isinstance(st, ast.Assign):
+                    tgts, val = st.targets, st.value
+                elif isinstance(st, ast.For):
+                    tgts, val = [st.target], st.iter
+                elif isinstance(st, ast.comprehension):
+                    tgts, val = [st.target], st.iter
+                for t in tgts:
+                    for nm in ast.walk(t):
+                        if isinstance(nm, ast.Name) and nm.id != objname:
+                            env.setdefault(nm.id, set()).update(self._reads_env(objcls, val, objname, env))
+        info_env_key = id(node)
+        self._senv[info_env_key] = env
         for r in rets:
             self._saver_expr(func, objcls, objname, r.value, info, pm, r, _depth)
+        if info.keys:
+            info.empty_literal = False
         return info
+
+    def _reads_env(self, objcls, expr, objname, env):
+        out = set(self.reads_of_expr(objcls, expr, objname))
+        for n in ast.walk(expr):
+            if isinstance(n, ast.Name) and n.id in env:
+                out |= env[n.id]
+        return out
 
     def _saver_expr(self, func, objcls, objname, expr, info, pm, at, depth):
         from .util import dict_literal_keys
         node = func.node
         lit = dict_literal_keys(expr)
         cond_ret = _is_conditional(pm, at, node)
+        env = getattr(self, '_senv', {}).get(id(node), {})
         if lit is not None:
             for k, v in lit.items():
-                info.add(k, self.reads_of_expr(objcls, v, objname), v, always=not cond_ret)
+                info.add(k, self._reads_env(objcls, v, objname, env), v, always=not cond_ret)
             if not lit:
                 info.empty_literal = True
             return
@@ -518,7 +549,7 @@ class FieldFlow(object):
                             if k is None:
                                 info.unmodelled = 'non-literal key store %s' % unparse(t)
                             else:
-                                info.add(k, self.reads_of_expr(objcls, st.value, objname), st.value,
+                                info.add(k, self._reads_env(objcls, st.value, objname, env), st.value,
                                          always=not _is_conditional(pm, st, node))
             if not seeded:
                 info.unmodelled = 'returned variable %s has no visible definition' % var
@@ -566,10 +597,14 @@ class FieldFlow(object):
         lf.recname = recname
         node = func.node
         pm = _parents(node)
-        # keys read
-        for n in walk_no_nested(node):
+        # keys read (closures defined in the loader count as readers, never as unconditional)
+        top = set(id(n) for n in walk_no_nested(node))
+        for n in ast.walk(node):
             k, kind = _rec_key(n, recname)
             if k is None:
+                continue
+            if id(n) not in top:
+                lf.read.add(k)
                 continue
             cond = _is_conditional(pm, n, node) or kind != 'sub'
             guarded = _guarded_by_membership(pm, n, node, recname, k)
@@ -609,13 +644,18 @@ class FieldFlow(object):
                 kind, k = built
                 lf.constructs.append((kind, k, st))
                 tcls = k if k is not None else None
-                if kind == 'cls':
+                if kind in ('cls', 'lookup'):
                     tcls = selfcls
+                if tcls is not None and not self._cls_guard_ok(pm, st, node, clsname, func, tcls):
+                    lf.constructs.pop()
+                    continue
                 if tcls is not None:
                     cf = self.ctor_flow(tcls)
                     mapping, problems = self.bind_ctor(cf, st)
                     lf.ctor_problems.append((tcls, st, problems, mapping is None))
-                    if mapping is not None:
+                    related = kind in ('cls', 'lookup') or selfcls is None or tcls.is_subclass_of(selfcls) \
+                        or selfcls.is_subclass_of(tcls)
+                    if mapping is not None and related:
                         for p, a in mapping.items():
                             keys = self._keys_of(a, recname, env)
                             dst = cf.fields_of_param(p.lstrip('*'))
@@ -640,14 +680,20 @@ class FieldFlow(object):
                     sub = self.loader_flow(m.func, selfcls, _depth + 1)
                     lf.merge(sub, cond=False)
                     lf.chained.append(m.func)
-        # result variables and post-construction stores
+        # result variables (returned or yielded) and post-construction stores
+        outnames = set()
+        for n in walk_no_nested(node):
+            if isinstance(n, (ast.Return, ast.Yield)) and isinstance(n.value, ast.Name):
+                outnames.add(n.value.id)
         for st in walk_no_nested(node):
             if isinstance(st, ast.Assign) and len(st.targets) == 1 and isinstance(st.targets[0], ast.Name) \
                     and isinstance(st.value, ast.Call):
                 built = self._built_class(func, st.value, clsname, selfcls, env)
+                if st.targets[0].id not in outnames:
+                    continue
                 if built is not None:
                     kind, k = built
-                    result_vars[st.targets[0].id] = selfcls if kind == 'cls' else k
+                    result_vars[st.targets[0].id] = selfcls if kind in ('cls', 'lookup') else k
                 elif lf.chained:
                     result_vars[st.targets[0].id] = selfcls
         for st in walk_no_nested(node):
@@ -677,6 +723,51 @@ class FieldFlow(object):
                         lf.key_fields.setdefault(key, set()).update(dst or {b.attr})
         lf.is_generator = any(isinstance(n, (ast.Yield, ast.YieldFrom)) for n in walk_no_nested(node))
         return lf
+
+    def _cls_guard_ok(self, pm, call, root, clsname, func, tcls):
+        """Is this constructor call on a path the concrete class ``tcls`` can take?
+        Understands ``if cls is K [or cls is K2]`` / ``issubclass(cls, K)`` guards."""
+        if clsname is None:
+            return True
+        child = call
+        cur = pm.get(id(call))
+        while cur is not None and cur is not root:
+            if isinstance(cur, ast.If):
+                v = self._eval_cls_test(cur.test, clsname, func, tcls)
+                if v is not None:
+                    in_body = any(child is x for x in cur.body)
+                    in_else = any(child is x for x in cur.orelse)
+                    if in_body and not v:
+                        return False
+                    if in_else and v:
+                        return False
+            child = cur
+            cur = pm.get(id(cur))
+        return True
+
+    def _eval_cls_test(self, test, clsname, func, tcls):
+        if isinstance(test, ast.BoolOp):
+            vals = [self._eval_cls_test(v, clsname, func, tcls) for v in test.values]
+            if any(v is None for v in vals):
+                return None
+            return any(vals) if isinstance(test.op, ast.Or) else all(vals)
+        if isinstance(test, ast.UnaryOp) and isinstance(test.op, ast.Not):
+            v = self._eval_cls_test(test.operand, clsname, func, tcls)
+            return None if v is None else not v
+        if isinstance(test, ast.Compare) and len(test.ops) == 1 and isinstance(test.left, ast.Name) \
+                and test.left.id == clsname and isinstance(test.ops[0], (ast.Is, ast.IsNot, ast.Eq, ast.NotEq)):
+            k = self.ix.resolve_class(func.module, test.comparators[0])
+            if k is None:
+                return None
+            same = k.qualname == tcls.qualname
+            return same if isinstance(test.ops[0], (ast.Is, ast.Eq)) else not same
+        if isinstance(test, ast.Call) and isinstance(test.func, ast.Name) and test.func.id == 'issubclass' \
+                and len(test.args) == 2 and isinstance(test.args[0], ast.Name) and test.args[0].id == clsname:
+            k = self.ix.resolve_class(func.module, test.args[1])
+            if k is None:
+                return None
+            return tcls.is_subclass_of(k)
+        return None
 
     def _keys_of(self, expr, recname, env):
         keys = set()
